@@ -381,6 +381,11 @@ fn hop_scenario(rng: &mut Rng, rec: &mut Rec, sc: usize, n_cases: usize) {
 			}
 			if oa != released.unwrap_or(out_amt) || oc != out_cltv { rec.oracle_fail(format!("hop s{} case {}: B offered amt={} cltv={} downstream but the onion asked for amt={} cltv={}", sc, case, oa, oc, out_amt, out_cltv)); }
 		}
+		// time margins (C08's clauses for EVERY next-hop kind): an HTLC that is forwarded or offered for interception still leaves
+		// room to fail back downstream (outgoing expiry beyond the grace period) and to claim upstream on chain
+		if (add_out.is_some() || intercepted.is_some()) && !(out_cltv > hb + 3 && in_cltv > hb + 39) {
+			rec.oracle_fail(format!("hop s{} case {}: HTLC forwarded / offered for interception without time margin: height {} in_cltv {} out_cltv {} (next hop {:?} scid {}, flags {}, intercepted {})", sc, case, hb, in_cltv, out_cltv, kind, scid, flags, intercepted.is_some()));
+		}
 		if let Some((ia, ea, _)) = intercepted {
 			if ia != in_amt { rec.oracle_fail(format!("hop s{} case {}: HTLCIntercepted reports inbound_amount_msat {} for an HTLC carrying {}", sc, case, ia, in_amt)); }
 			if ea > in_amt { rec.oracle_fail(format!("hop s{} case {}: HTLCIntercepted expected_outbound_amount_msat {} > inbound_amount_msat {} (next hop {:?} scid {}, flags {})", sc, case, ea, in_amt, kind, scid, flags)); }
